@@ -67,7 +67,7 @@ const (
 	c16MaxValidity = 1000000 // seconds
 	c16Unit        = 1000    // seconds per offset unit: no real-time effect can come near it
 	c16MaxOff      = 980     // largest valid exp offset (980 000 s: 20 000 s below the maximum)
-	c16MaxClock    = 900    // the model clock never passes this, so that there is always room for a fresh valid exp
+	c16MaxClock    = 900     // the model clock never passes this, so that there is always room for a fresh valid exp
 	c16MaxSubjects = 4
 )
 
@@ -336,7 +336,8 @@ type c16Node struct {
 	ver    *c16Verifier
 	mod    *Module
 	defDir string
-	// client bookkeeping
+	// client bookkeeping: the server was reset and this client has not been seen converged since (sticky, so that the
+	// consequences of one mishandled reset keep one signature)
 	resetSinceSettle bool
 }
 
@@ -749,7 +750,13 @@ func (w *c16World) checkGet(after int, entries map[string]vc.VerifiablePresentat
 	x := w.x
 	seen := map[string]bool{}
 	subjects := map[string]bool{}
-	for key, vp := range entries {
+	keys := make([]string, 0, len(entries))
+	for key := range entries {
+		keys = append(keys, key)
+	}
+	sort.Strings(keys)
+	for _, key := range keys {
+		vp := entries[key]
 		k, err := strconv.Atoi(key)
 		if err != nil {
 			x.Violate("get:key-not-a-timestamp", "Get(%d) returned key %q", after, key)
@@ -788,7 +795,11 @@ func (w *c16World) checkGet(after int, entries map[string]vc.VerifiablePresentat
 	if racing {
 		return
 	}
-	for s, e := range w.list {
+	for s := 0; s < w.c.Subjects; s++ {
+		e := w.list[s]
+		if e == nil {
+			continue
+		}
 		if e.ts > after && !w.expired(e) && !seen[e.id] {
 			x.Violate("get:missing", "Get(%d) does not return live %s %s of subject %d (timestamp %d)", after, e.kind, e.id, s, e.ts)
 		}
@@ -1147,12 +1158,13 @@ func (w *c16World) opSettle(ci int) {
 	if c.resetSinceSettle {
 		suffix = ":after-server-reset"
 	}
-	for id, e := range want {
+	for _, id := range c16SortedKeys(want) {
+		e := want[id]
 		if !got[id] {
 			x.Violate("converge:missing"+suffix, "%s: after two quiescent polls Search lacks live registration %s of subject %d (server timestamp %d)", c.name, id, e.subj, e.ts)
 		}
 	}
-	for id := range got {
+	for _, id := range c16SortedKeys(got) {
 		if want[id] == nil {
 			x.Violate("converge:extra"+suffix, "%s: after two quiescent polls Search returns %s which is not a live registration on the server", c.name, id)
 		}
@@ -1180,7 +1192,9 @@ func (w *c16World) opSettle(ci int) {
 	} else {
 		x.Class("settle:empty")
 	}
-	c.resetSinceSettle = false
+	if len(x.Violations()) == 0 {
+		c.resetSinceSettle = false
+	}
 }
 
 // ---------------------------------------------------------------------------------------------------------------------
@@ -1254,6 +1268,15 @@ func (w *c16World) reage() {
 	for _, n := range append([]*c16Node{w.server}, w.clients...) {
 		w.x.NoErr(n.db.Exec("UPDATE discovery_presentation SET presentation_expiration = ? WHERE presentation_id IN ? AND presentation_expiration > ?", past, ids, past).Error, "age rows")
 	}
+}
+
+func c16SortedKeys[V any](m map[string]V) []string {
+	out := make([]string, 0, len(m))
+	for k := range m {
+		out = append(out, k)
+	}
+	sort.Strings(out)
+	return out
 }
 
 func (w *c16World) mutation() {
